@@ -5,7 +5,9 @@ package main
 // Cases: every value of the boundary universe (gen_val.go) as receiver, a fixed family of encoding/json edge cases
 // (jsonEdgeFamily), over-arity calls, random value trees with random strings and floats.
 //
-// Oracle on the REAL result, independent of the model (C01/C02 flavour, reported under the property that runs the stream):
+// Oracle on the REAL result, independent of the model (a panic is reported as a C01 violation, a dependence on the map
+// insertion order as a C02 violation - the configuration of C17, which runs the stream, lists both under "also" - the
+// other clauses under the property that runs the stream):
 //   * no panic;
 //   * the text `json` (and `inspect`, when json.Marshal accepts the value) returns parses back with encoding/json to the
 //     expected logical value of the receiver (jsonLogical: the value tree read as JSON data - numbers exactly, floats
@@ -248,7 +250,7 @@ func jsonFilterCase(r *Run, line, name string, recv *V, args []*V, g *RNG) strin
 	out, err, panicked := filterEval(name, recv, args)
 	switch {
 	case panicked:
-		r.Violate(prop, "panic", line, lastPanic)
+		r.Violate("C01", "panic", line, lastPanic) // C17's configuration lists C01 and C02 under "also"
 		return "panic"
 	case err != nil:
 		return "err " + filterCauseKind(err)
@@ -294,7 +296,7 @@ func jsonFilterCase(r *Run, line, name string, recv *V, args []*V, g *RNG) strin
 		out2, err2, panicked2 := filterEvalWith(&realiser{perm: o}, name, recv, args)
 		n++
 		if panicked2 || err2 != nil || fmt.Sprint(out2) != text {
-			r.Violate(prop, "json-depends-on-map-insertion-order", line,
+			r.Violate("C02", "json-depends-on-map-insertion-order", line,
 				fmt.Sprintf("%s printed %q for the maps built in key order and %q (err %v, panic %v) for another insertion order", name, short(text, 300), short(fmt.Sprint(out2), 300), err2, panicked2))
 			break
 		}
